@@ -1,6 +1,7 @@
 import Falcon.Props.C06
 import Falcon.Lemmas.KeyCodecSk
 import Falcon.Lemmas.RecomputeG
+import Falcon.Lemmas.SignRefine
 
 /-!
 # C05 — sizes and exact round trip (format side) and the key-generation guards
@@ -140,6 +141,16 @@ theorem signature_roundtrip (N L : Nat) (hNL : (N = 512 ∧ L = 625) ∨ (N = 10
     (hs : salt.length = 40) (hb : s.length = L) :
     sigFromBytes N (sigToBytes salt s) = .ok (.ok (salt, s)) ∧ (sigToBytes salt s).length = 41 + L :=
   ⟨KeyCodec.sig_parse N L salt s hs hb hNL, by simp [sigToBytes, hs, hb]; omega⟩
+
+/-- **every signature the complete model of `sign` returns** (`SignFlt.sign`, byte-identical with the real `sign`) has the
+    variant's fixed size — 666 / 1280 bytes — and `Signature::from_bytes` decodes it into the salt and compressed body it
+    was built from, for every key, message and generator stream and any number of retries -/
+theorem model_signatures_have_fixed_size_and_decode (chk : Bool) (N L : Nat)
+    (hNL : (N = 512 ∧ L = 625) ∨ (N = 1024 ∧ L = 1239)) (b0 : List (List Int)) (msg stream sig : List Nat)
+    (a b : Nat) (zs : List Int) (h : SignFlt.sign chk N b0 msg stream = .ok (.ok (sig, a, b, zs))) :
+    sig.length = 41 + L ∧ ∃ salt body, sigFromBytes N sig = .ok (.ok (salt, body)) ∧ sig = sigToBytes salt body := by
+  obtain ⟨body, h1, h2, h3⟩ := SignFlt.sign_wellformed chk N L hNL b0 msg stream sig a b zs h
+  exact ⟨h2, _, body, h3, h1⟩
 
 /-! ### non-vacuity -/
 example : deserializeField (intBits 6 (-31)) = some 12258 ∧ deserializeField (intBits 8 127) = some 127 := by decide
